@@ -116,6 +116,23 @@ double gcirc(double ra1, double dec1,
 }
 
 
+// Cosine of the search circle used to find the triangles around a point when
+// matching.  For radii of about 1e-6 degrees and less cos(radius) is within
+// an ulp of 1 and cannot represent the circle: triangles across a mesh edge
+// were missed (a point on an edge did not even match itself).  The triangle
+// cover is therefore never computed for less than MIN_COVER_RADIUS; the exact
+// distance test against the requested radius is done on the candidates.
+static const double MIN_COVER_RADIUS = 1.0e-4; // degrees
+
+static double cover_cosine(double radius_degrees)
+{
+    double r = radius_degrees;
+    if (r < MIN_COVER_RADIUS) {
+        r = MIN_COVER_RADIUS;
+    }
+    return cos( r*D2R );
+}
+
 HTMC::HTMC(int depth) throw (const char *) {
     init(depth);
 }
@@ -475,7 +492,7 @@ PyObject* Matcher::match(PyObject* ra_array, // all in degrees
     double rad=0, d=0;
     if (nrad == 1) {
         rad = *(double *) PyArray_GETPTR1((PyArrayObject *) radius_array, 0);
-        d = cos( rad*D2R );
+        d = cover_cosine(rad);
     }
 
     npy_intp ninput = PyArray_SIZE((PyArrayObject *) ra_array);
@@ -487,7 +504,7 @@ PyObject* Matcher::match(PyObject* ra_array, // all in degrees
 
         if (nrad > 1) {
             rad = *(double *) PyArray_GETPTR1((PyArrayObject *) radius_array, i_input);
-            d = cos( rad*D2R );
+            d = cover_cosine(rad);
         }
 
         // Find the triangles around this point
